@@ -1,6 +1,7 @@
 import SimilarVerif.Props.C01
 import SimilarVerif.Props.C08
 import SimilarVerif.Lemmas.Deadline
+import SimilarVerif.Lemmas.PatienceCost
 /-!
 # C07 — deadline expiry at any point still yields a valid diff, promptly; it is plumbed
 
@@ -11,9 +12,11 @@ worlds, hence over every expiry point.
 Proved here: validity and finish-once for every expiry point (LCS unconditionally incl. totality;
 Myers and Patience relative to the snake hypothesis). Second half of the file (Lemmas/Deadline.lean): "a deadline
 that never expires = no deadline" for every algorithm and the capture pipeline; LCS does no work after
-expiry; Myers makes at most 3·min(N,M) comparisons after the first expired probe.  Not yet a theorem:
-the post-expiry bound for Patience (its hook runs Myers inside hook calls); it is established by the
-`deadline` suite: measured comparisons after expiry at every expiry point of every run.
+expiry; Myers makes at most 3·min(N,M) comparisons after the first expired probe; Patience entered with
+an expired deadline makes at most 5·min(N,M) + 4 comparisons (`patience_expired_at_start`).  Not yet a
+theorem (`…_partial`): the post-expiry bound for Patience when the deadline expires at a LATER probe (its
+hook runs Myers inside hook calls); it is established by the `deadline` suite: measured comparisons after
+expiry at every expiry point of every run.
 What no executable model can exhibit: real time (the virtual clock replaces `Instant::now() > deadline`).
 -/
 namespace SimilarVerif.C07
@@ -106,5 +109,10 @@ theorem conquer_expired_no_recursion : type_of% @conquer_expired_norec := @conqu
 at most `3·min(N,M)` further comparisons (`PostN`: the pending `conquer` frames own disjoint boxes,
 each strips its prefix and suffix and falls back) -/
 theorem myers_post_expiry_bound : type_of% @myersDiff_post_expiry := @myersDiff_post_expiry
+
+/-- **Patience started after expiry** (`patience_post_expiry_partial`: the entry case of the post-expiry bound):
+the whole run — outer Myers run over the unique items, gap runs and tail run inside the hook — makes at most
+`5·min(N,M) + 4` comparisons and the clock stays expired. -/
+theorem patience_expired_at_start : type_of% @PatienceC.patience_expired_entry := @PatienceC.patience_expired_entry
 
 end SimilarVerif.C07
